@@ -30,7 +30,8 @@ def key_eq(eng, a, b, fr):
     hook = eng.env.get('key_eq')
     if hook is not None:
         return hook(eng, a, b, fr)
-    raise Unsupported('map key equality of %r / %r' % (a, b))
+    from .models_last import struct_eq
+    return struct_eq(eng, a, b, fr)
 
 
 def the_map(eng, r, fr):
